@@ -72,8 +72,13 @@ class Peer(object):
         self.knobs = dict(ctx.cfg.get("net") or {})
 
     # ---- fault plan -------------------------------------------------------------------------------
-    def arm(self, kind, nth=0):
-        self.armed = {"kind": kind, "nth": int(nth)}
+    def arm(self, kind, nth=0, more=None):
+        """the nth request from now fails with `kind`; `more` = [[kind, nth], ...] arms further requests of the same
+        operation (both existence probes lost, a probe and the transfer, ...)"""
+        plan = {int(nth): kind}
+        for k, n in (more or []):
+            plan.setdefault(int(n), k)
+        self.armed = {"plan": plan, "i": 0}
         self.fired = None
 
     def disarm(self):
@@ -83,13 +88,15 @@ class Peer(object):
         a = self.armed
         if a is None:
             return None
-        if a["nth"] > 0:
-            a["nth"] -= 1
+        kind = a["plan"].pop(a["i"], None)
+        a["i"] += 1
+        if not a["plan"]:
+            self.armed = None
+        if kind is None:
             return None
-        self.armed = None
-        self.fired = a["kind"]
-        self.ctx.fault("F10.net_" + a["kind"])
-        return a["kind"]
+        self.fired = self.fired or kind
+        self.ctx.fault("F10.net_" + kind)
+        return kind
 
     # ---- serving -------------------------------------------------------------------------------------
     def _response(self, url, method, status, reason, body, cut=False):
